@@ -6,6 +6,7 @@ pub mod c05;
 pub mod c09;
 pub mod c15;
 pub mod find;
+pub mod rank;
 #[cfg(lucid_suggest_verif)]
 pub mod c16;
 #[cfg(lucid_suggest_verif)]
@@ -15,7 +16,7 @@ pub mod c19;
 
 pub fn registry() -> Registry {
     #[allow(unused_mut)]
-    let mut props = vec![c01::def(), c02::def(), c05::def(), c09::def(), c15::def(), find::def_c03(), find::def_c04(), find::def_c13(), find::def_c14()];
+    let mut props = vec![c01::def(), c02::def(), c05::def(), c09::def(), c15::def(), find::def_c03(), find::def_c04(), find::def_c13(), find::def_c14(), rank::def_c06(), rank::def_c07(), rank::def_c12()];
     #[cfg(lucid_suggest_verif)]
     {
         props.push(c16::def());
